@@ -286,18 +286,47 @@ def evaluate_payload_template(input, context, template):
             return isinstance(value, int) and not isinstance(value, bool)
 
         def asl_intrinsic_Format(args):
-            if len(args) < 1:
+            if len(args) < 1 or not isinstance(args[0], str):
                 raise IntrinsicFailure(
-                    "States.Format failed, requires one or more arguments."
+                    "States.Format failed, requires a template string and zero or more arguments."
                 )
             template_string = args[0]
             args = args[1:]
-            try:
-                return template_string.format(*args)
-            except Exception as e:
+            for arg in args:
+                if isinstance(arg, (list, dict)):
+                    raise IntrinsicFailure(
+                        "States.Format failed, arguments MUST NOT be JSON arrays or objects."
+                    )
+            """
+            Only the character sequence {} is a placeholder and \\' \\{ \\} \\\\ are
+            the only escapes. Python's str.format() is deliberately not used as
+            its replacement fields ({0.attr}, {0[i]}, {!r}, {:>9}, {{) are not
+            part of the States Language and expose interpreter internals.
+            """
+            result = []
+            used = 0
+            i = 0
+            while i < len(template_string):
+                c = template_string[i]
+                if c == "\\" and template_string[i + 1:i + 2] in ("'", "{", "}", "\\"):
+                    result.append(template_string[i + 1])
+                    i += 2
+                elif template_string.startswith("{}", i) and used < len(args):
+                    result.append(args[used] if isinstance(args[used], str) else str(args[used]))
+                    used += 1
+                    i += 2
+                elif c in "{}\\":
+                    raise IntrinsicFailure(
+                        "States.Format failed, unexpected {} at offset {}.".format(c, i)
+                    )
+                else:
+                    result.append(c)
+                    i += 1
+            if used != len(args):
                 raise IntrinsicFailure(
-                    "States.Format failed with {}.".format(e)
+                    "States.Format failed, there must be as many arguments as occurrences of {}."
                 )
+            return "".join(result)
 
         def asl_intrinsic_StringToJson(args):
             if len(args) != 1:
